@@ -238,6 +238,13 @@ Theorem C01_unresolved_not_accepted : forall file_of yaml_load eps aeps deps tin
 Proof. exact unresolved_not_accepted. Qed.
 Print Assumptions C01_unresolved_not_accepted.
 
+(* several constructions in one process: the result of each is that of a fresh construction *)
+Theorem C01_construction_independent : forall file_of yaml_load before c after,
+  nth_error (construct_all file_of yaml_load (before ++ c :: after)) (List.length before) =
+  Some (construct file_of yaml_load c).
+Proof. exact construction_independent. Qed.
+Print Assumptions C01_construction_independent.
+
 (* the three readings of a str, in the order the code tries them *)
 Theorem C01_read_order : forall file_of yaml_load s,
   match string_die s with
